@@ -608,7 +608,13 @@ struct ArgumentParser<T> {
     options: HashMap<&'static str, OptionHandler<T>>, // Long option lookup
     short_options: HashMap<&'static str, OptionHandler<T>>, // Short option lookup
     prefix_options: HashMap<&'static str, PrefixOptionHandler<T>>, // For options like -L, -l, etc.
+    /// How many `@file` arguments we're currently inside of.
+    response_file_depth: std::cell::Cell<u32>,
 }
+
+/// How deeply `@file` arguments may nest. A file that includes itself would otherwise recurse until
+/// the stack overflows.
+const MAX_RESPONSE_FILE_DEPTH: u32 = 100;
 
 impl<T: platform::Args> Default for ArgumentParser<T> {
     fn default() -> Self {
@@ -623,6 +629,7 @@ impl<T: platform::Args> ArgumentParser<T> {
             options: HashMap::new(),
             short_options: HashMap::new(),
             prefix_options: HashMap::new(),
+            response_file_depth: std::cell::Cell::new(0),
         }
     }
 
@@ -674,11 +681,18 @@ impl<T: platform::Args> ArgumentParser<T> {
         // TODO @lapla-cogito standardize the interface. @file doesn't use a leading hyphen.
         // Handle `@file`option (recursively) - merging in the options contained in the file
         if let Some(path) = arg.strip_prefix('@') {
+            let depth = self.response_file_depth.get();
+            ensure!(
+                depth < MAX_RESPONSE_FILE_DEPTH,
+                "Arguments file `{path}` is nested too deeply. Does it include itself?"
+            );
             let file_args = read_args_from_file(Path::new(path))?;
             let mut file_arg_iter = file_args.iter();
+            self.response_file_depth.set(depth + 1);
             while let Some(file_arg) = file_arg_iter.next() {
                 self.handle_argument(args, modifier_stack, file_arg, &mut file_arg_iter)?;
             }
+            self.response_file_depth.set(depth);
             return Ok(());
         }
 
